@@ -397,22 +397,57 @@ type c09Run struct {
 	kv   []c09KV
 	keys [][]byte
 	vals [][]byte
-	str  string
+	s    string // display form, built on demand
+	sOK  bool
 }
 
 func c09NewRun(kv []c09KV) *c09Run {
 	r := &c09Run{kv: kv}
-	var sb strings.Builder
-	for i, e := range kv {
+	for _, e := range kv {
 		r.keys = append(r.keys, e.k)
 		r.vals = append(r.vals, e.v)
-		if i > 0 {
-			sb.WriteByte(',')
-		}
-		fmt.Fprintf(&sb, "%x=%s", e.k, c09ValName(e.v))
 	}
-	r.str = sb.String()
 	return r
+}
+
+// str is the display / replay form "key=value,...". Not safe for concurrent first use (runs shared between
+// goroutines are rendered once up front with render()).
+func (r *c09Run) str() string {
+	if !r.sOK {
+		var sb strings.Builder
+		for i, e := range r.kv {
+			if i > 0 {
+				sb.WriteByte(',')
+			}
+			fmt.Fprintf(&sb, "%x=%s", e.k, c09ValName(e.v))
+		}
+		r.s, r.sOK = sb.String(), true
+	}
+	return r.s
+}
+
+func (r *c09Run) render() *c09Run { r.str(); return r }
+
+// hash: FNV-1a over the claimed keys and values (for distinct counting without building strings).
+func (r *c09Run) hash(h uint64) uint64 {
+	mix := func(b []byte) {
+		for _, c := range b {
+			h = (h ^ uint64(c)) * 1099511628211
+		}
+		h = (h ^ 0xff) * 1099511628211
+	}
+	for _, e := range r.kv {
+		mix(e.k)
+		mix(e.v)
+	}
+	return h
+}
+
+func c09HashBytes(h uint64, b []byte) uint64 {
+	for _, c := range b {
+		h = (h ^ uint64(c)) * 1099511628211
+	}
+	return (h ^ 0xfe) * 1099511628211
 }
 
 func c09ValName(v []byte) string {
@@ -544,17 +579,90 @@ type c09Case struct {
 	DB    string `json:"db"`
 }
 
-type c09Stats map[string]int64
+// c09Stats: outcome counters per part. Index: bit0 claim is true, bit1 empty run, bits2-3 verdict
+// (0 rejected, 1 accepted more=false, 2 accepted more=true); misc holds violation kinds and the counters of the [wild] mixed-length parts.
+type c09Stats struct {
+	cnt map[string]*[12]int64
+	misc map[string]int64
+}
+
+func c09NewStats() *c09Stats { return &c09Stats{cnt: map[string]*[12]int64{}, misc: map[string]int64{}} }
+
+func (st *c09Stats) add(part string, isTrue, empty bool, err error, more bool) {
+	a := st.cnt[part]
+	if a == nil {
+		a = new([12]int64)
+		st.cnt[part] = a
+	}
+	i := 0
+	if isTrue {
+		i |= 1
+	}
+	if empty {
+		i |= 2
+	}
+	if err == nil {
+		if more {
+			i |= 8
+		} else {
+			i |= 4
+		}
+	}
+	a[i]++
+}
+
+func c09Flush(r *mc.R, st *c09Stats) {
+	for part, a := range st.cnt {
+		for i, n := range a {
+			if n == 0 {
+				continue
+			}
+			cls := "forged"
+			if i&1 != 0 {
+				cls = "true"
+			}
+			if i&2 != 0 {
+				cls += "-empty"
+			}
+			verdict := "rejected"
+			switch i >> 2 {
+			case 1:
+				verdict = "accepted,more=false"
+			case 2:
+				verdict = "accepted,more=true"
+			}
+			r.OutcomeN(part+":"+cls+":"+verdict, n)
+		}
+	}
+	for k, v := range st.misc {
+		r.OutcomeN(k, v)
+	}
+}
+
+// c09Desc is the case descriptor; it marshals to c09Case only when needed (violation / replay).
+type c09Desc struct {
+	part  string
+	t     *c09Trie
+	start []byte
+	run   *c09Run
+	db    string
+}
+
+func c09StartName(s []byte) string {
+	if s == nil {
+		return "nil"
+	}
+	return fmt.Sprintf("%x", s)
+}
+
+func (d *c09Desc) MarshalJSON() ([]byte, error) {
+	return json.Marshal(c09Case{d.part, d.t.fam.name, d.t.id, c09StartName(d.start), d.run.str(), d.db})
+}
 
 // c09Verify executes one verification and applies the property sentence.
 //   complete: db is known to contain the honest edge proofs for (start, run): a true run must then be accepted.
-func c09Verify(r *mc.R, t *c09Trie, part string, start []byte, run *c09Run, db ethdb.KeyValueReader, dbName string, complete bool, st c09Stats) {
-	sname := "nil"
-	if start != nil {
-		sname = fmt.Sprintf("%x", start)
-	}
-	c := c09Case{part, t.fam.name, t.id, sname, run.str, dbName}
-	r.Case(c, func() error {
+func c09Verify(r *mc.R, t *c09Trie, part string, start []byte, run *c09Run, db ethdb.KeyValueReader, dbName string, complete bool, st *c09Stats) {
+	r.Case(&c09Desc{part, t, start, run, dbName}, func() error {
 		more, err := VerifyRangeProof(t.root, start, run.keys, run.vals, db)
 		var wantAcc, wantMore, mustAcc bool
 		if db == nil {
@@ -568,27 +676,16 @@ func c09Verify(r *mc.R, t *c09Trie, part string, start []byte, run *c09Run, db e
 		}
 		switch {
 		case err == nil && !wantAcc:
-			st[part+":FORGERY-ACCEPTED"]++
-			return fmt.Errorf("accepted (more=%v) a run that is not the true content of the covered interval; true content of trie: %s", more, c09NewRun(t.ents).str)
+			st.misc[part+":FORGERY-ACCEPTED"]++
+			return fmt.Errorf("accepted (more=%v) a run that is not the true content of the covered interval; true content of trie: %s", more, c09NewRun(t.ents).str())
 		case err == nil && more != wantMore:
-			st[part+":WRONG-MORE"]++
-			return fmt.Errorf("accepted the true run but reported more=%v, want %v; true content of trie: %s", more, wantMore, c09NewRun(t.ents).str)
+			st.misc[part+":WRONG-MORE"]++
+			return fmt.Errorf("accepted the true run but reported more=%v, want %v; true content of trie: %s", more, wantMore, c09NewRun(t.ents).str())
 		case err != nil && mustAcc:
-			st[part+":TRUE-RUN-REJECTED"]++
-			return fmt.Errorf("rejected the true run with honest proofs: %v; true content of trie: %s", err, c09NewRun(t.ents).str)
+			st.misc[part+":TRUE-RUN-REJECTED"]++
+			return fmt.Errorf("rejected the true run with honest proofs: %v; true content of trie: %s", err, c09NewRun(t.ents).str())
 		}
-		cls := "forged"
-		if wantAcc {
-			cls = "true"
-		}
-		if len(run.keys) == 0 {
-			cls += "-empty"
-		}
-		if err == nil {
-			st[fmt.Sprintf("%s:%s:accepted,more=%v", part, cls, more)]++
-		} else {
-			st[part+":"+cls+":rejected"]++
-		}
+		st.add(part, wantAcc, len(run.keys) == 0, err, more)
 		return nil
 	})
 }
@@ -663,12 +760,6 @@ func (o *c09Only) skipFam(name string) bool  { return o.c.Fam != "" && o.c.Fam !
 func (o *c09Only) skipTrie(id string) bool   { return o.c.Trie != "" && o.c.Trie != "*" && o.c.Trie != id }
 func (o *c09Only) skipPart(part string) bool { return o.c.Part != "" && !strings.HasPrefix(o.c.Part, part) }
 
-func c09Flush(r *mc.R, st c09Stats) {
-	for k, v := range st {
-		r.OutcomeN(k, v)
-	}
-}
-
 func c09FamilyDB(f *c09Family) (c09DB, []common.Hash) {
 	n := c09Pow3(len(f.keys))
 	db := c09DB{}
@@ -719,11 +810,29 @@ func TestVerif_C09(t *testing.T) {
 			familyDB, _ := c09FamilyDB(fam)
 			runs := make([]*c09Run, n)
 			for i := range runs {
-				runs[i] = c09NewRun(c09Assign(fam, i))
+				runs[i] = c09NewRun(c09Assign(fam, i)).render()
+			}
+			allStarts := fam.starts
+			if r.Quick() && fi == 1 {
+				// quick tier, 32-byte family: start keys = 00.., ff.., every alphabet key and its successor (the 2-byte
+				// family keeps predecessors and gap midpoints as well)
+				keep := map[string]bool{string(make([]byte, 32)): true, string(bytes.Repeat([]byte{0xff}, 32)): true}
+				for _, k := range fam.keys {
+					keep[string(k)] = true
+					if g := c09AddOne(k, +1); g != nil {
+						keep[string(g)] = true
+					}
+				}
+				allStarts = nil
+				for _, s := range fam.starts {
+					if keep[string(s)] {
+						allStarts = append(allStarts, s)
+					}
+				}
 			}
 			r.Bound(fam.name+".tries", n-1)
 			r.Bound(fam.name+".claimed_runs", n)
-			r.Bound(fam.name+".starts", len(fam.starts))
+			r.Bound(fam.name+".starts", len(allStarts))
 			r.Bound(fam.name+".family_nodes", len(familyDB))
 			t0 := time.Now()
 			r.Parallel(n, func(ti int) {
@@ -731,7 +840,7 @@ func TestVerif_C09(t *testing.T) {
 				if only.skipTrie(id) {
 					return
 				}
-				st := c09Stats{}
+				st := c09NewStats()
 				defer c09Flush(r, st)
 				tr, err := c09NewTrie(fam, id, c09Assign(fam, ti))
 				if err != nil {
@@ -748,10 +857,10 @@ func TestVerif_C09(t *testing.T) {
 				if ti == 0 {
 					// observation only: the empty trie with an empty (non-nil) proof set cannot be verified at all
 					_, err := VerifyRangeProof(tr.root, fam.starts[0], nil, nil, c09DB{})
-					st[fmt.Sprintf("observation:empty-trie,empty-run,empty-proofdb:accepted=%v", err == nil)]++
+					st.misc[fmt.Sprintf("observation:empty-trie,empty-run,empty-proofdb:accepted=%v", err == nil)]++
 					return
 				}
-				for si, s := range fam.starts {
+				for si, s := range allStarts {
 					if r.Expired() {
 						return
 					}
@@ -764,7 +873,7 @@ func TestVerif_C09(t *testing.T) {
 					}
 				}
 				if ti%61 == 0 {
-					r.Sample(map[string]any{"part": "all", "fam": fam.name, "trie": id, "content": c09NewRun(tr.ents).str, "root": fmt.Sprintf("%x", tr.root)})
+					r.Sample(map[string]any{"part": "all", "fam": fam.name, "trie": id, "content": c09NewRun(tr.ents).str(), "root": fmt.Sprintf("%x", tr.root)})
 				}
 			})
 			r.Bound(fam.name+".all_wall_s", time.Since(t0).Round(100*time.Millisecond).Seconds())
@@ -848,7 +957,7 @@ func TestVerif_C09(t *testing.T) {
 				if only.skipTrie(jobs[ji].id) {
 					return
 				}
-				st := c09Stats{}
+				st := c09NewStats()
 				defer c09Flush(r, st)
 				subsetsAll := r.Thorough() && jobs[ji].core
 				tr, err := c09NewTrie(fam, jobs[ji].id, jobs[ji].ents)
@@ -882,7 +991,7 @@ func TestVerif_C09(t *testing.T) {
 						} else {
 							c09Verify(r, tr, "edits/honest", s, honest, pdb, "prove", true, st)
 						}
-						r.Distinct(tr.id + "|" + string(s) + "|" + honest.str)
+						r.DistinctHash(honest.hash(c09HashBytes(c09HashBytes(mc.Hash64(fam.name), []byte(tr.id)), s)))
 						// honest run with proof nodes withheld: never a wrong verdict
 						hk := hedge.sortedKeys()
 						masks := []int{}
@@ -909,7 +1018,7 @@ func TestVerif_C09(t *testing.T) {
 							edge := tr.edge(s, run)
 							c09Verify(r, tr, "edits/edit", s, run, edge, "edge", true, st)
 							c09Verify(r, tr, "edits/edit", s, run, familyDB, "family", true, st)
-							r.Distinct(tr.id + "|" + string(s) + "|" + run.str)
+							r.DistinctHash(run.hash(c09HashBytes(c09HashBytes(mc.Hash64(fam.name), []byte(tr.id)), s)))
 							if subsetsAll {
 								ek := edge.sortedKeys()
 								for i := range ek {
@@ -926,7 +1035,7 @@ func TestVerif_C09(t *testing.T) {
 					}
 				}
 				if jsi%997 == 0 {
-					r.Sample(map[string]any{"part": "edits", "fam": fam.name, "trie": tr.id, "content": c09NewRun(tr.ents).str})
+					r.Sample(map[string]any{"part": "edits", "fam": fam.name, "trie": tr.id, "content": c09NewRun(tr.ents).str()})
 				}
 			})
 			r.Bound(fam.name+".edits_wall_s", time.Since(t0).Round(100*time.Millisecond).Seconds())
@@ -955,13 +1064,13 @@ func c09Wild(r *mc.R, only *c09Only) {
 		}
 	}
 	var runs []*c09Run
-	runs = append(runs, c09NewRun(nil))
+	runs = append(runs, c09NewRun(nil).render())
 	for _, a := range elems {
-		runs = append(runs, c09NewRun([]c09KV{a}))
+		runs = append(runs, c09NewRun([]c09KV{a}).render())
 	}
 	for _, a := range elems {
 		for _, b := range elems {
-			runs = append(runs, c09NewRun([]c09KV{a, b}))
+			runs = append(runs, c09NewRun([]c09KV{a, b}).render())
 		}
 	}
 	// tries: assignment indices over the 7-key A2 alphabet chosen for shape variety
@@ -979,7 +1088,7 @@ func c09Wild(r *mc.R, only *c09Only) {
 		if only.skipTrie(id) {
 			return
 		}
-		st := c09Stats{}
+		st := c09NewStats()
 		defer c09Flush(r, st)
 		tr, err := c09NewTrie(fam, id, c09Assign(fam, trieIdx[i]))
 		if err != nil {
@@ -1019,14 +1128,10 @@ func c09Wild(r *mc.R, only *c09Only) {
 					if c09WildClass(run, s, db == nil, klen) != "" {
 						continue // two input classes are evaluated as one case each after this loop (see c09WildClasses)
 					}
-					sname := "nil"
-					if s != nil {
-						sname = fmt.Sprintf("%x", s)
-					}
-					r.Case(c09Case{part, fam.name, id, sname, run.str, dbName}, func() error {
+					r.Case(&c09Desc{part, tr, s, run, dbName}, func() error {
 						more, err := VerifyRangeProof(tr.root, s, run.keys, run.vals, db)
 						if err != nil {
-							st[part+":rejected"]++
+							st.misc[part+":rejected"]++
 							return nil
 						}
 						var wantAcc, wantMore bool
@@ -1036,18 +1141,18 @@ func c09Wild(r *mc.R, only *c09Only) {
 							wantAcc, wantMore = c09Truth(tr.ents, s, run.kv)
 						}
 						if !wantAcc {
-							st[part+":FORGERY-ACCEPTED"]++
-							return fmt.Errorf("accepted (more=%v) a run that is not the true content of the covered interval (byte order); true content of trie: %s", more, c09NewRun(tr.ents).str)
+							st.misc[part+":FORGERY-ACCEPTED"]++
+							return fmt.Errorf("accepted (more=%v) a run that is not the true content of the covered interval (byte order); true content of trie: %s", more, c09NewRun(tr.ents).str())
 						}
 						if more != wantMore {
-							st[part+":WRONG-MORE"]++
-							return fmt.Errorf("accepted the true run but reported more=%v, want %v; true content of trie: %s", more, wantMore, c09NewRun(tr.ents).str)
+							st.misc[part+":WRONG-MORE"]++
+							return fmt.Errorf("accepted the true run but reported more=%v, want %v; true content of trie: %s", more, wantMore, c09NewRun(tr.ents).str())
 						}
-						st[part+":true:accepted"]++
+						st.misc[part+":true:accepted"]++
 						return nil
 					})
 				}
-				r.Distinct("W|" + id + "|" + string(s) + "|" + run.str)
+				r.DistinctHash(run.hash(c09HashBytes(c09HashBytes(mc.Hash64("W"), []byte(id)), s)))
 			}
 		}
 		// mismatched key/value counts
@@ -1093,12 +1198,12 @@ func c09WildClasses(r *mc.R, fam *c09Family, familyDB c09DB, trieIdx []int, star
 		}
 		tries = append(tries, tr)
 	}
-	st := c09Stats{}
+	st := c09NewStats()
 	defer c09Flush(r, st)
 	sound := func(part string, tr *c09Trie, s []byte, run *c09Run, db ethdb.KeyValueReader, dbName string) error {
 		more, err := VerifyRangeProof(tr.root, s, run.keys, run.vals, db)
 		if err != nil {
-			st[part+":rejected"]++
+			st.misc[part+":rejected"]++
 			return nil
 		}
 		var wantAcc, wantMore bool
@@ -1108,11 +1213,11 @@ func c09WildClasses(r *mc.R, fam *c09Family, familyDB c09DB, trieIdx []int, star
 			wantAcc, wantMore = c09Truth(tr.ents, s, run.kv)
 		}
 		if !wantAcc || more != wantMore {
-			st[part+":FORGERY-ACCEPTED"]++
+			st.misc[part+":FORGERY-ACCEPTED"]++
 			return fmt.Errorf("trie %s, proofdb %s: accepted (more=%v) although the claim is not the true content of the covered interval in byte order (want accept=%v more=%v); true content: %s",
-				tr.id, dbName, more, wantAcc, wantMore, c09NewRun(tr.ents).str)
+				tr.id, dbName, more, wantAcc, wantMore, c09NewRun(tr.ents).str())
 		}
-		st[part+":true:accepted"]++
+		st.misc[part+":true:accepted"]++
 		return nil
 	}
 	name := func(s []byte) string {
@@ -1124,7 +1229,7 @@ func c09WildClasses(r *mc.R, fam *c09Family, familyDB c09DB, trieIdx []int, star
 	// class 1: one case per value of the single zero-length-key entry; all tries x all starts inside
 	for _, v := range vals {
 		run := c09NewRun([]c09KV{{[]byte{}, v}})
-		r.Case(c09Case{"wild/zero-length-key-noproof", fam.name, "*", "*", run.str, "nil"}, func() error {
+		r.Case(c09Case{"wild/zero-length-key-noproof", fam.name, "*", "*", run.str(), "nil"}, func() error {
 			for _, tr := range tries {
 				for _, s := range starts {
 					r.Eval(1)
